@@ -55,6 +55,10 @@ func diffQueue(w gmars.Warrior, q []int) string {
 	return ""
 }
 
+// offMod reduces a spawn offset modulo the core size; negative ints stand for the
+// unsigned 64-bit numbers 2^64+off (offsets near the top of the Address range).
+func offMod(off, m int) int { return int(uint64(off) % uint64(m)) }
+
 func b2i(b bool) int {
 	if b {
 		return 1
